@@ -245,6 +245,9 @@ static void update_statistics_float(carquet_page_writer_t* writer,
                                      const float* values, int64_t count) {
     for (int64_t i = 0; i < count; i++) {
         float v = values[i];
+        /* NaN is unordered: it must neither become a bound nor freeze the
+         * bounds (every comparison with a NaN bound is false) */
+        if (v != v) continue;
         if (!writer->has_min_max) {
             memcpy(writer->min_value, &v, sizeof(v));
             memcpy(writer->max_value, &v, sizeof(v));
@@ -264,6 +267,8 @@ static void update_statistics_double(carquet_page_writer_t* writer,
                                       const double* values, int64_t count) {
     for (int64_t i = 0; i < count; i++) {
         double v = values[i];
+        /* NaN is unordered: see update_statistics_float */
+        if (v != v) continue;
         if (!writer->has_min_max) {
             memcpy(writer->min_value, &v, sizeof(v));
             memcpy(writer->max_value, &v, sizeof(v));
